@@ -562,10 +562,37 @@ fn run_point_word(ctx: &Ctx, pw: f32, vw: f32, init: [f32; 2], word: &[usize], c
         viol(ctx, "point/initiate", e, cfg, &[]);
         return;
     }
+    // a third point that joins late (initiated after the first step): from then on its covariance lags the
+    // others', so a vector holding it next to an older point mixes states with different histories
+    let mut late: Option<KalmanState<4>> = None;
+    let same_state = |x: &KalmanState<4>, y: &KalmanState<4>| {
+        let (a, b) = (x.verif_raw(), y.verif_raw());
+        a.0.iter().zip(&b.0).all(|(p, q)| p.to_bits() == q.to_bits()) && a.1.iter().zip(&b.1).all(|(p, q)| p.to_bits() == q.to_bits())
+    };
     for (k, &sym) in word.iter().enumerate() {
         let pre = raw(&st);
         let pre2 = raw(&st2);
         ctx.steps.fetch_add(1, Ordering::Relaxed);
+        if k == 1 {
+            late = Some(f.initiate(&pt(init[0] + 7.0, init[1] - 2.0)));
+        }
+        if let Some(l) = late.take() {
+            // both orders of [late joiner, old point]; every operation must equal the per-point filter bit for bit
+            let lm = pt(l.verif_raw().0[0] + 0.5, l.verif_raw().0[1] - 0.25);
+            let om = pt(obj[0] as f32 + 0.125, obj[1] as f32);
+            for order in 0..2 {
+                let (sts, ms) = if order == 0 { (vec![l.clone(), st.clone()], [lm, om]) } else { (vec![st.clone(), l.clone()], [om, lm]) };
+                let (vp, vu, vd) = (vf.predict(&sts), vf.update(&sts, &ms), vf.distance(&sts, &ms));
+                for i in 0..2 {
+                    let (pp, pu, pd) = (f.predict(&sts[i]), f.update(&sts[i], &ms[i]), f.distance(&sts[i], &ms[i]));
+                    if vp.len() != 2 || vu.len() != 2 || vd.len() != 2 || !same_state(&vp[i], &pp) || !same_state(&vu[i], &pu) || vd[i].to_bits() != pd.to_bits() {
+                        viol(ctx, "vec/mixed-histories-differ-from-point", format!("step {k}: element {i} of a vector [{}] : predict / update / distance differ from the point filter on that element alone (distance {} vs {pd})", if order == 0 { "late joiner, old point" } else { "old point, late joiner" }, vd.get(i).cloned().unwrap_or(f32::NAN)), cfg, &word[..=k]);
+                        return;
+                    }
+                }
+            }
+            late = Some(if sym == 0 { f.predict(&l) } else { f.update(&l, &lm) });
+        }
         if sym == 0 {
             st = f.predict(&st);
             st2 = f.predict(&st2);
@@ -653,7 +680,7 @@ fn words(len: usize, nsym: usize, f: &mut dyn FnMut(&[usize])) {
 
 pub fn run(tier: Tier) -> Report {
     let rep = Report::new("C07", tier);
-    rep.set_rule("(a) every word over {predict, update(still|drift|jump|shrink|grow|jitter)} of length <= L (quick 5, thorough 7) and every word of length <= 4 repeated to 300 steps, for box / point / 2-point-vector filters x 3 weight pairs x initial measurements; rotated tracks also receive angle-less measurements (jitter at even positions); every step compared with the f64 textbook step computed from the implementation's own pre-state. (b) cost(d,true) == 100 - cost(d,false) and the gate value for f32 bit patterns d >= 0 (thorough: all 2^31; quick: stride + neighbourhoods of every chi-square table entry). Distinct = words / patterns enumerated without repetition.");
+    rep.set_rule("(a) every word over {predict, update(still|drift|jump|shrink|grow|jitter)} of length <= L (quick 5, thorough 7) and every word of length <= 4 repeated to 300 steps, for box / point / 2-point-vector filters x 3 weight pairs x initial measurements (the vector filter additionally on vectors that mix a late-initiated point with an older one, both orders); rotated tracks also receive angle-less measurements (jitter at even positions); every step compared with the f64 textbook step computed from the implementation's own pre-state. (b) cost(d,true) == 100 - cost(d,false) and the gate value for f32 bit patterns d >= 0 (thorough: all 2^31; quick: stride + neighbourhoods of every chi-square table entry). Distinct = words / patterns enumerated without repetition.");
     rep.assume("f64 reference recurrence with the library's documented noise model; tolerances k*2^-24*block scale");
     let ctx = Ctx { rep: &rep, steps: AtomicU64::new(0), words: AtomicU64::new(0) };
 
